@@ -21,7 +21,7 @@ StepEv(prog, acc, ev) ==
                   e == Est(prog, st, i, forced)
                   s2 == Step(prog, st)
               IN IF ev.i + 1 # i THEN Fail(a2, "decide-order")
-                 ELSE IF ev.forced # forced THEN Fail(a2, "decide-forced")
+                 ELSE IF ev.forced # e.f16 THEN Fail(a2, "decide-forced")
                  ELSE IF ev.tgt + 1 # prog[i].tgt THEN Fail(a2, "decide-target")
                  ELSE IF ev.fwd # e.fwd THEN Fail(a2, "decide-direction")
                  ELSE IF ev.min # e.mn \/ ev.max # e.mx THEN Fail(a2, "decide-estimates")
